@@ -7,6 +7,7 @@ import (
 	"go/types"
 	"hash/crc32"
 	"regexp"
+	"strconv"
 	"strings"
 
 	"golang.org/x/tools/go/ssa"
@@ -499,6 +500,12 @@ func init() {
 	regNative("github.com/klauspost/compress/zstd.WithZeroFrames", false, func(in *Interp, th *Thread, fr *Frame, args []Value, call ssa.Instruction) (Value, ctl) {
 		return (*Closure)(nil), ctlNext
 	})
+	regNative("internal/stringslite.Clone", false, func(in *Interp, th *Thread, fr *Frame, args []Value, call ssa.Instruction) (Value, ctl) {
+		return args[0], ctlNext
+	})
+	regNative("strings.Clone", false, func(in *Interp, th *Thread, fr *Frame, args []Value, call ssa.Instruction) (Value, ctl) {
+		return args[0], ctlNext
+	})
 	regNative("runtime/debug.Stack", false, func(in *Interp, th *Thread, fr *Frame, args []Value, call ssa.Instruction) (Value, ctl) {
 		return Slice{}, ctlNext
 	})
@@ -618,6 +625,7 @@ func (in *Interp) timeValue(ns int64) Value {
 // ---------- crc32 ----------
 
 type crcRec struct {
+	init  *Term
 	poly  uint32
 	n     int
 	conc  bool
@@ -661,7 +669,7 @@ func (in *Interp) crcUpdate(th *Thread, crc *Term, tab Pointer, s Slice) Value {
 		}
 		r := crc32.Update(uint32(crc.k), crc32.MakeTable(poly), raw)
 		res := in.st.Const(32, uint64(r))
-		in.crcLog = append(in.crcLog, crcRec{poly: poly, n: len(bs), conc: true, bytes: bs, res: res})
+		in.crcLog = append(in.crcLog, crcRec{init: crc, poly: poly, n: len(bs), conc: true, bytes: bs, res: res})
 		return res
 	}
 	// uninterpreted, functionally consistent on (poly, crc, bytes)
@@ -672,11 +680,189 @@ func (in *Interp) crcUpdate(th *Thread, crc *Term, tab Pointer, s Slice) Value {
 	}
 	key := sb.String()
 	if t, ok := in.crcMemo[key]; ok {
-		in.crcLog = append(in.crcLog, crcRec{poly: poly, n: len(bs), bytes: bs, res: t})
+		in.crcLog = append(in.crcLog, crcRec{init: crc, poly: poly, n: len(bs), bytes: bs, res: t})
 		return t
 	}
 	t := in.freshVar(32, "crc")
 	in.crcMemo[key] = t
-	in.crcLog = append(in.crcLog, crcRec{poly: poly, n: len(bs), bytes: bs, res: t})
+	in.crcLog = append(in.crcLog, crcRec{init: crc, poly: poly, n: len(bs), bytes: bs, res: t})
 	return t
+}
+
+// ---------- strconv on symbolic strings (base 10, ≤ 18 characters: exact) ----------
+
+func (in *Interp) parseIntSym(th *Thread, sv Value, base, bitSize int64, unsigned bool) Value {
+	errT := in.prog.errorType
+	_ = errT
+	if s, ok := sv.(string); ok {
+		var v uint64
+		var err error
+		if unsigned {
+			v, err = strconv.ParseUint(s, int(base), int(bitSize))
+		} else {
+			var sv int64
+			sv, err = strconv.ParseInt(s, int(base), int(bitSize))
+			v = uint64(sv)
+		}
+		if err != nil {
+			return Tuple{in.st.Const(64, v), in.prog.newErrorString(in, err.Error())}
+		}
+		return Tuple{in.st.Const(64, v), Iface{}}
+	}
+	bs := in.strBytes(sv)
+	if base != 10 && base != 0 || len(bs) > 18 {
+		in.fail("unsupported", "strconv.ParseInt on symbolic string with base != 10 or length > 18")
+	}
+	st := in.st
+	mkErr := func() Value {
+		return Tuple{st.Const(64, 0), in.prog.newErrorString(in, "strconv: invalid syntax or out of range")}
+	}
+	if len(bs) == 0 {
+		return mkErr()
+	}
+	// optional sign (fork)
+	neg := false
+	digits := bs
+	if !unsigned {
+		isMinus := st.Eq(bs[0], st.Const(8, '-'))
+		isPlus := st.Eq(bs[0], st.Const(8, '+'))
+		signed := st.Or(isMinus, isPlus)
+		take := false
+		if signed.IsConst() {
+			take = signed.k != 0
+		} else {
+			take = in.branch(th, signed, "parseint-sign")
+		}
+		if take {
+			m := false
+			if isMinus.IsConst() {
+				m = isMinus.k != 0
+			} else {
+				m = in.branch(th, isMinus, "parseint-minus")
+			}
+			neg = m
+			digits = bs[1:]
+			if len(digits) == 0 {
+				return mkErr()
+			}
+		}
+	}
+	valid := st.tt
+	val := st.Const(64, 0)
+	for _, b := range digits {
+		isDigit := st.And(st.Cmp(OpUle, st.Const(8, '0'), b), st.Cmp(OpUle, b, st.Const(8, '9')))
+		valid = st.And(valid, isDigit)
+		d := st.ZExt(st.Bin(OpSub, b, st.Const(8, '0')), 64)
+		val = st.Bin(OpAdd, st.Bin(OpMul, val, st.Const(64, 10)), d)
+	}
+	// range
+	if bitSize == 0 {
+		bitSize = 64
+	}
+	var inRange *Term
+	maxVal := uint64(1)
+	for range digits {
+		maxVal *= 10
+	}
+	maxVal-- // largest value len(digits) decimal digits can denote (len <= 18: no overflow)
+	if bitSize < 64 && !unsigned && maxVal <= (uint64(1)<<uint(bitSize-1))-1 {
+		inRange = st.tt
+	} else if bitSize < 64 && unsigned && maxVal <= (uint64(1)<<uint(bitSize))-1 {
+		inRange = st.tt
+	} else if bitSize >= 64 {
+		inRange = st.tt
+	} else if unsigned {
+		if bitSize >= 64 {
+			inRange = st.tt
+		} else {
+			inRange = st.Cmp(OpUle, val, st.Const(64, (uint64(1)<<uint(bitSize))-1))
+		}
+	} else {
+		lim := uint64(1) << uint(bitSize-1)
+		if neg {
+			inRange = st.Cmp(OpUle, val, st.Const(64, lim))
+		} else {
+			inRange = st.Cmp(OpUle, val, st.Const(64, lim-1))
+		}
+	}
+	okc := st.And(valid, inRange)
+	good := false
+	if okc.IsConst() {
+		good = okc.k != 0
+	} else {
+		good = in.branch(th, okc, "parseint-valid")
+	}
+	if !good {
+		return mkErr()
+	}
+	if neg {
+		val = st.Un(OpNeg, val)
+	}
+	return Tuple{val, Iface{}}
+}
+
+func init() {
+	regNative("strconv.ParseInt", false, func(in *Interp, th *Thread, fr *Frame, args []Value, call ssa.Instruction) (Value, ctl) {
+		return in.parseIntSym(th, args[0], int64(in.intArg(th, args[1])), int64(in.intArg(th, args[2])), false), ctlNext
+	})
+	regNative("strconv.ParseUint", false, func(in *Interp, th *Thread, fr *Frame, args []Value, call ssa.Instruction) (Value, ctl) {
+		return in.parseIntSym(th, args[0], int64(in.intArg(th, args[1])), int64(in.intArg(th, args[2])), true), ctlNext
+	})
+	regNative("strconv.Atoi", false, func(in *Interp, th *Thread, fr *Frame, args []Value, call ssa.Instruction) (Value, ctl) {
+		return in.parseIntSym(th, args[0], 10, 64, false), ctlNext
+	})
+}
+
+
+// repairCRC turns a model into one in which every uninterpreted checksum equals the real CRC
+// of the model's bytes (the stored checksum bytes must be free for this to succeed). Returns
+// nil if no such model exists: the counterexample needs a CRC collision and is dropped.
+func (in *Interp) repairCRC(cond *Term, m map[*Term]uint64) (map[*Term]uint64, SatResult) {
+	hasSym := false
+	for _, r := range in.crcLog {
+		if !r.conc {
+			hasSym = true
+		}
+	}
+	if !hasSym {
+		return m, Sat
+	}
+	for iter := 0; iter < 6; iter++ {
+		env := map[string]uint64{}
+		for t, v := range m {
+			env[t.name] = v
+		}
+		memo := map[int32]uint64{}
+		extra := in.st.tt
+		if cond != nil {
+			extra = cond
+		}
+		consistent := true
+		for _, r := range in.crcLog {
+			if r.conc {
+				continue
+			}
+			raw := make([]byte, len(r.bytes))
+			for i, b := range r.bytes {
+				raw[i] = byte(evalTerm(b, env, memo))
+				extra = in.st.And(extra, in.st.Eq(b, in.st.Const(8, uint64(raw[i]))))
+			}
+			init := uint32(evalTerm(r.init, env, memo))
+			extra = in.st.And(extra, in.st.Eq(r.init, in.st.Const(32, uint64(init))))
+			real := crc32.Update(init, crc32.MakeTable(r.poly), raw)
+			if uint32(evalTerm(r.res, env, memo)) != real {
+				consistent = false
+			}
+			extra = in.st.And(extra, in.st.Eq(r.res, in.st.Const(32, uint64(real))))
+		}
+		if consistent {
+			return m, Sat
+		}
+		r, m2 := in.check(extra, in.vars)
+		if r != Sat {
+			return nil, r
+		}
+		m = m2
+	}
+	return nil, Unknown
 }
